@@ -93,8 +93,11 @@ struct Setup {
     spec: world::SearchSpec,
 }
 
-fn run_case(i: u64, rng: &mut Rng, rep: &mut Report, verbose: bool) {
+pub fn run_case_with(i: u64, rng: &mut Rng, rep: &mut Report, verbose: bool, force_fault: bool, sigp: &str) {
     let (pages, n) = gen_pages(rng);
+    // connection loss exactly at a page boundary: the server closes right after the Done of page k
+    // (which carried a live cookie), before the follow-up request can be answered
+    let fault_after_page: Option<usize> = if pages.len() >= 2 && (force_fault || rng.chance(1, 8)) { Some(rng.usize(pages.len() - 1)) } else { None };
     let mut other_controls = if rng.bool() { gen::gen_req_controls(rng) } else { vec![] };
     other_controls.retain(|c| c.oid != PAGED_OID.as_bytes());
     let setup = Setup {
@@ -167,6 +170,10 @@ fn run_case(i: u64, rng: &mut Rng, rep: &mut Report, verbose: bool) {
                     None => bytes.extend_from_slice(&ber::encode_min(&resp_node(m.id, &Resp::Done(Res::code(2, "bad page")), None))),
                 }
                 server.send_chunked(&bytes, Chunking::Random, &mut srng);
+                if fault_after_page.is_some() && page_ix == fault_after_page {
+                    server.eof();
+                    break;
+                }
             }
             (reqs, notes)
         });
@@ -229,6 +236,27 @@ fn run_case(i: u64, rng: &mut Rng, rep: &mut Report, verbose: bool) {
         }
         rep.count("clash_cases", 1);
         rep.case(Some(fnv(format!("clash{:?}", setup.other_controls).as_bytes())));
+        return;
+    }
+    if let Some(k) = fault_after_page {
+        let want_entries: usize = pages[..=k].iter().map(|p| p.items.iter().filter(|(kind, _)| *kind == 0).count()).sum();
+        let want_items: usize = pages[..=k].iter().map(|p| p.items.len()).sum();
+        match &outcome {
+            Ok((items, res)) => {
+                rep.violation(format!("{}:connection-loss-at-a-page-boundary-reported-as-end-of-results", sigp), format!("the server closed after page {} of {} (live cookie): the stream ended with Ok(None), {} items and final rc {} {:?} instead of an error", k, pages.len(), items.len(), res.rc, res.text), replay.clone());
+            }
+            Err(e) if e.starts_with("next:") => {
+                let got: usize = e.rsplit("after ").next().and_then(|x| x.split(' ').next()).and_then(|x| x.parse().ok()).unwrap_or(usize::MAX);
+                let entries_only = setup.chain != 0;
+                let want = if entries_only { want_entries } else { want_items };
+                if got != want {
+                    rep.violation(format!("{}:items-lost-or-invented-before-connection-loss", sigp), format!("{} items returned before the error, {} were delivered", got, want), replay.clone());
+                }
+            }
+            Err(e) => rep.violation(format!("{}:paged-search-fails-oddly-on-connection-loss", sigp), e.clone(), replay.clone()),
+        }
+        rep.count("cases_with_connection_loss_at_page_boundary", 1);
+        rep.case(Some(fnv(format!("fault{:?}{}", pages.iter().map(|p| p.items.len()).collect::<Vec<_>>(), k).as_bytes())));
         return;
     }
     for n in &server_notes {
@@ -334,6 +362,10 @@ fn run_case(i: u64, rng: &mut Rng, rep: &mut Report, verbose: bool) {
     rep.case(Some(fnv(format!("{:?}{:?}", pages.iter().map(|p| (p.items.len(), p.cookie.clone())).collect::<Vec<_>>(), setup.chain).as_bytes())));
 }
 
+fn run_case(i: u64, rng: &mut Rng, rep: &mut Report, verbose: bool) {
+    run_case_with(i, rng, rep, verbose, false, "C16")
+}
+
 fn trunc<T: std::fmt::Debug>(t: &T) -> String {
     format!("{:?}", t).chars().take(400).collect()
 }
@@ -341,6 +373,12 @@ fn trunc<T: std::fmt::Debug>(t: &T) -> String {
 pub fn paging(ctx: &Ctx) -> Report {
     let n = ctx.n(50_000, 50_000_000);
     par_cases(ctx, "paging", n, ctx.secs(30, 600), |i, rng, rep| run_case(i, rng, rep, false))
+}
+
+/// C04's view of paging: every case loses the connection at a page boundary.
+pub fn paging_faults(ctx: &Ctx) -> Report {
+    let n = ctx.n(10_000, 10_000_000);
+    par_cases(ctx, "paged_connection_loss", n, ctx.secs(15, 300), |i, rng, rep| run_case_with(i, rng, rep, false, true, "C04:paged"))
 }
 
 pub fn replay(ctx: &Ctx, v: &Value) -> Report {
